@@ -80,6 +80,10 @@ def norm_ddl_case(case):
     for kind in list(conv):
         if conv[kind] is not None and not conv[kind]:
             conv[kind] = None
+    if conv.get("pk"):
+        # a "pk" convention using %(constraint_name)s makes every Table() raise (the implicit PrimaryKeyConstraint created in
+        # Table.__init__ is unnamed) - outside this property; the token is replaced
+        conv["pk"] = [(["tok", "table_name"] if (p[0] == "tok" and p[1] == "constraint_name") else p) for p in conv["pk"]]
     if not conv.get("ix"):
         conv["ix"] = [["lit", 2, 3], ["tok", "column_0_label"]]
     c["conv"] = conv
@@ -88,6 +92,7 @@ def norm_ddl_case(case):
         return conv.get(kind) and any(p[0] == "tok" and p[1] == "constraint_name" for p in conv[kind])
 
     cons = []
+    seen_collevel = set()
     for i, con in enumerate(c.get("cons", [])):
         kind, ti, cis, ns = con[0], con[1] % len(tables), con[2], con[3]
         ncols = len(tables[ti]["cols"])
@@ -111,7 +116,15 @@ def norm_ddl_case(case):
             ns = ["plain", 6, i]
             if kind in ("colunique", "colindex"):
                 kind = base
+        if kind in ("colunique", "colindex") and ns is not None:
+            kind = base  # Column(unique=True / index=True) cannot carry an explicit name
+        if kind in ("colunique", "colindex"):
+            if (kind, ti, cis2[0]) in seen_collevel:
+                continue
+            seen_collevel.add((kind, ti, cis2[0]))
         cons.append([kind, ti, cis2, ns])
+    # Column(unique=True, index=True) is documented to yield one unique Index: keep only the index
+    cons = [x for x in cons if not (x[0] == "colunique" and ("colindex", x[1], x[2][0]) in seen_collevel)]
     c["cons"] = cons
     pk = c.get("pk") or [1, None]
     if needs_name("pk") and pk[1] is None and not c.get("strict_err"):
@@ -173,7 +186,7 @@ def build_ddl(c):
             elif kind == "ix":
                 o = Index(name, *[keys[x] for x in cis])
             elif kind == "ck":
-                o = CheckConstraint(column(colnames[cis[0]]) > 5, name=name)
+                continue  # attached after the Table exists (documented form: CheckConstraint(table.c.col > 5))
             elif kind == "fk":
                 pkeys = [pc.key for pc in tables[0].columns][: len(cis)]  # string targets resolve by column key
                 o = ForeignKeyConstraint([keys[x] for x in cis], [f"{tnames[0]}.{pc}" for pc in pkeys], name=name)
@@ -182,6 +195,10 @@ def build_ddl(c):
             objs[j] = o
             extra.append(o)
         tables.append(Table(tnames[ti], md, *cols, *extra))
+        for j, con in enumerate(c["cons"]):
+            kind, cti, cis, ns = con
+            if cti == ti and kind == "ck":
+                objs[j] = CheckConstraint(tables[ti].c[keys[cis[0]]] > 5, name=_nm(ns, conv_cls))
     # column-level unique/index produce objects we locate afterwards
     for j, con in enumerate(c["cons"]):
         kind, cti, cis, ns = con
@@ -251,6 +268,10 @@ def render_ddl(c, dialect):
             out["ddl"].append(s)
         except exc.IdentifierError:
             out["errors"][key] = "IdentifierError"
+        except exc.CompileError as e:
+            if "requires that the index have a name" not in str(e):
+                raise
+            out["errors"][key] = "IndexWithoutName"
     return out
 
 
@@ -263,11 +284,11 @@ def build_select(c):
     tables, tvals = [], []
     tnames = []
     for ti, t in enumerate(c["tables"]):
-        tn = mkname(t["name"])
+        tn = t.get("rawname") or mkname(t["name"])
         while tn in tnames:
             tn = tn + "q"
         tnames.append(tn)
-        colnames = list(dict.fromkeys(mkname(col) for col in t["cols"]))
+        colnames = list(dict.fromkeys(t["raw"] if t.get("raw") else [mkname(col) for col in t["cols"]]))
         tables.append(Table(tn, md, *[Column(cn, Integer) for cn in colnames]))
         tvals.append({cn: 1000 * (ti + 1) + ci for ci, cn in enumerate(colnames)})
     froms, fvals = [], []
@@ -329,6 +350,7 @@ def build_select(c):
             expected.append(100000 + ii)
         elif kind == "bind":
             nm = "B" + str(ii) + mkname([it[1], it[2], 3])
+            explicit.add(nm)
             cols.append(bindparam(nm, 200000 + ii, type_=Integer))
             expected.append(200000 + ii)
     if not cols:
